@@ -14,6 +14,9 @@ func init() {
 			r.Floor("EF-EOF", 25)
 			r.Floor("EF-EOF-TRANSLATION", 12)
 			ruleLenObligations(c, r)
+			ruleRawEOFFlag(c, r, "")
+			ruleDecoderReadErr(c, r, "")
+			ruleIO(c, r, readerCone(c), "", true)
 		},
 	})
 }
